@@ -66,7 +66,7 @@ static const convn_t convn_table[] = {
 #define NCONVN 9
 #define NMAX 6
 #define NZ0N 8
-#define NMATN 14
+#define NMATN 16
 
 static int n_entry(int tier) { return tier ? 7 : 3; }
 static int n_mats(int tier)
@@ -426,6 +426,21 @@ static void gen_matn(int n, int type, int k, double complex *m)
 	    if (k == 9)
 		v *= type == PT_S ? 30.0 : 1e5;
 	    m[i * n + j] = v * sc;
+	}
+    }
+    if ((k == 14 || k == 15) && n >= 3) {
+	/*
+	 * the leading 2 x 2 block is exactly singular inside a regular
+	 * matrix (second row, or second column, of the block twice the
+	 * first): the second diagonal entry cancels during elimination and
+	 * a later row has to be brought up, whatever the entry was before
+	 */
+	if (k == 14) {
+	    m[1 * n + 0] = 2.0 * m[0 * n + 0];
+	    m[1 * n + 1] = 2.0 * m[0 * n + 1];
+	} else {
+	    m[0 * n + 1] = 2.0 * m[0 * n + 0];
+	    m[1 * n + 1] = 2.0 * m[1 * n + 0];
 	}
     }
 }
